@@ -31,7 +31,13 @@ func Inv(d time.Duration) time.Duration {
 }
 
 func Midpoint(x, y time.Duration) time.Duration {
-	return x + (y-x)/2.0
+	d := y - x
+	if (x < 0) != (y < 0) && (d < 0) != (y < 0) {
+		// y - x overflowed: the values are of different signs and more than
+		// math.MaxInt64 apart, their sum does not overflow
+		return (x + y) / 2
+	}
+	return x + d/2.0
 }
 
 func Median(ds []time.Duration) time.Duration {
